@@ -259,7 +259,11 @@ def step (d : DSt) (ts : List String) (impl : String) : DSt × String × String 
   let startsNew := ts.head? = some "new"
   let startsTt := startsNew && !startsFb && ts.contains "tt"
   let d := if startsNew then { d with ttmode := startsTt, tobs := if startsTt then [0] else [], ubehs := [] } else d
-  let ts := if startsNew then ts.filter (· ≠ "tt") else ts
+  -- `new … blk=s1,s2`: signals the application has blocked when the instance is built (default hooks only)
+  let blk : List Int := if startsNew && !startsFb then
+      (ts.filter (·.startsWith "blk=")).flatMap fun t => ((t.splitOn "=").getD 1 "" |>.splitOn ",").filterMap fun x => (int? x).filter validSig
+    else []
+  let ts := if startsNew then ts.filter (fun t => t ≠ "tt" && !t.startsWith "blk=") else ts
   if startsFb || (d.fb && !startsNew) then stepFb d (ts.filter (· ≠ "fb")) impl else
   let d := { d with fb := false }
   if !d.fb && ts = ["obs", "1"] then stepObs d true impl else
@@ -275,7 +279,12 @@ def step (d : DSt) (ts : List String) (impl : String) : DSt × String × String 
   let wop := parseWOp ts
   let op := match wop with | .op o => o | _ => .bad
   let named := match wop with | .op _ => false | _ => true
-  let w0 := if isNew op then World.init cfgOfSource else d.m
+  let w0 := if isNew op then
+      -- the process-wide signal mask the application starts the library with; `evloop_init` starts its `ppoll` mask
+      -- empty (sigemptyset(&defmask)), which is what `Tickit.EvLoop.ppoll` mirrors: every pending signal is delivered
+      let w := World.init cfgOfSource
+      { w with st := { w.st with blocked := blk.foldl (fun l s => setInsert s l) w.st.blocked } }
+    else d.m
   -- an operation on an instance that does not exist (never built, destroyed) does nothing
   let dead := !named && !w0.st.alive
   let w := if isNew op then w0 else w0.step wop
